@@ -22,7 +22,7 @@ fn class(e: &RuntimeError) -> String {
     }
 }
 
-struct Prog { types: String, pous: String, vars: String, body: String, mods: Vec<&'static str> }
+struct Prog { types: String, pous: String, vars: String, blocks: String, body: String, mods: Vec<&'static str> }
 
 fn dlit(v: i64) -> String { format!("DINT#{v}") }
 fn ilit(v: i64) -> String { format!("INT#{v}") }
@@ -325,30 +325,70 @@ fn m_convert(rng: &mut Rng, p: &mut Prog) {
     }
 }
 
+fn m_retain_io(rng: &mut Rng, p: &mut Prog) {
+    // direct-address bindings next to RETAIN / PERSISTENT variables of other types, declared in varying order: the run loop sets
+    // %IW0 / %IX4.0 before every cycle and restarts the runtime (warm or cold) in the middle
+    p.mods.push("retainio");
+    let mut decls = vec!["  lvl AT %IW0 : INT;\n", "  ratio : REAL := REAL#1.5;\n", "  outw AT %QW2 : INT;\n", "  sw AT %IX4.0 : BOOL;\n", "  wide : LINT;\n"];
+    for i in (1..decls.len()).rev() { let j = rng.below(i as u64 + 1) as usize; decls.swap(i, j); }
+    p.vars += &decls.concat();
+    let q = if rng.chance(1, 2) { "RETAIN" } else { "PERSISTENT" };
+    let mut kept = vec!["  total : DINT;\n", "  keep : BOOL;\n", "  hours : UINT;\n"];
+    for i in (1..kept.len()).rev() { let j = rng.below(i as u64 + 1) as usize; kept.swap(i, j); }
+    p.blocks += &format!("VAR {q}\n{}END_VAR\n", kept.concat());
+    if rng.chance(1, 2) { p.blocks += "VAR\n  late : SINT;\n  late2 AT %QB6 : BYTE;\nEND_VAR\n"; }
+    for _ in 0..rng.range(2, 5) {
+        let s = match rng.below(8) {
+            0 => "IF lvl > INT#2000 THEN\n  total := total + DINT#1;\nEND_IF;\n".to_string(),
+            1 => "outw := lvl;\n".to_string(),
+            2 => "ratio := ratio + REAL#0.5;\n".to_string(),
+            3 => "keep := sw OR keep;\n".to_string(),
+            4 => "hours := hours + UINT#1;\n".to_string(),
+            5 => "wide := wide + INT_TO_LINT(lvl);\n".to_string(),
+            6 => "total := total + INT_TO_DINT(lvl);\n".to_string(),
+            _ => "IF sw THEN\n  outw := outw + INT#1;\nEND_IF;\n".to_string(),
+        };
+        p.body += &s;
+    }
+}
+
 fn gen(rng: &mut Rng) -> Prog {
-    let mut p = Prog { types: String::new(), pous: String::new(), vars: String::new(), body: String::new(), mods: vec![] };
+    let mut p = Prog { types: String::new(), pous: String::new(), vars: String::new(), blocks: String::new(), body: String::new(), mods: vec![] };
     p.vars += "  cyc : DINT;\n  i : DINT;\n  i2 : DINT;\n  j : INT;\n  b : BOOL;\n  b2 : BOOL;\n";
     p.body += "cyc := cyc + DINT#1;\nb := NOT b;\n";
-    let mods: [fn(&mut Rng, &mut Prog); 14] = [m_arrays, m_structs, m_functions, m_fbs, m_stdfbs, m_stdfuns, m_refs, m_strings, m_enums, m_time, m_classes, m_fbarrays, m_inherit, m_convert];
+    let mods: [fn(&mut Rng, &mut Prog); 15] = [m_arrays, m_structs, m_functions, m_fbs, m_stdfbs, m_stdfuns, m_refs, m_strings, m_enums, m_time, m_classes, m_fbarrays, m_inherit, m_convert, m_retain_io];
     let k = rng.range(1, 3);
     let mut chosen: Vec<usize> = vec![];
     while chosen.len() < k as usize { let m = rng.below(mods.len() as u64) as usize; if !chosen.contains(&m) { chosen.push(m); } }
     for m in chosen { mods[m](rng, &mut p); }
     p
 }
-fn source(p: &Prog) -> String { format!("{}{}PROGRAM Main\nVAR\n{}END_VAR\n{}END_PROGRAM\n", p.types, p.pous, p.vars, p.body) }
+fn source(p: &Prog) -> String { format!("{}{}PROGRAM Main\nVAR\n{}END_VAR\n{}{}END_PROGRAM\n", p.types, p.pous, p.vars, p.blocks, p.body) }
 
 /// declared tag of the scalar variables the modules declare in Main (name, Debug prefix of the stored value)
 const TAGS: &[(&str, &str)] = &[("cyc", "DInt("), ("i", "DInt("), ("i2", "DInt("), ("j", "Int("), ("b", "Bool("), ("b2", "Bool("), ("w", "DWord("), ("r", "Real("), ("lr", "LReal("),
     ("u", "UInt("), ("s", "String("), ("t", "String("), ("ws", "WString("), ("n", "Int("), ("c", "Enum("), ("sm", "Int("), ("tm", "Time("), ("tm2", "Time("), ("dd", "Date("),
-    ("td", "Tod("), ("dt1", "Dt("), ("lt", "LTime("), ("tot", "DInt("), ("et", "Time("), ("wd", "Word("), ("bt", "Byte("), ("ud", "UDInt("), ("li", "LInt("), ("si", "SInt("), ("rr", "Real(")];
+    ("td", "Tod("), ("dt1", "Dt("), ("lt", "LTime("), ("tot", "DInt("), ("et", "Time("), ("wd", "Word("), ("bt", "Byte("), ("ud", "UDInt("), ("li", "LInt("), ("si", "SInt("), ("rr", "Real("),
+    ("lvl", "Int("), ("ratio", "Real("), ("outw", "Int("), ("sw", "Bool("), ("wide", "LInt("), ("total", "DInt("), ("keep", "Bool("), ("hours", "UInt("), ("late", "SInt("), ("late2", "Byte(")];
 fn run_src(src: &str, cycles: usize) -> String {
     let mut h = match TestHarness::from_source(src) {
         Ok(h) => h,
         Err(e) => return format!("REJECT:{}", format!("{e:?}").chars().filter(|c| !c.is_control()).take(160).collect::<String>().replace(' ', "_").replace(':', ";")),
     };
     let mut out = vec![];
-    for _ in 0..cycles {
+    let io = src.contains("AT %IW0");
+    // a restart in the middle of the run (cycle index derived from the text so that the choice is reproducible per program)
+    let restart_at = if io { Some(2 + src.len() % 3) } else { None };
+    for c in 0..cycles {
+        if io {
+            let _ = h.set_direct_input("%IW0", trust_runtime::value::Value::Word(if c % 2 == 0 { 2500 } else { 1234 }));
+            let _ = h.set_direct_input("%IX4.0", trust_runtime::value::Value::Bool(c % 3 == 1));
+        }
+        if restart_at == Some(c) {
+            let mode = if src.len() % 2 == 0 { trust_runtime::RestartMode::Warm } else { trust_runtime::RestartMode::Cold };
+            if let Err(e) = h.restart(mode) { out.push(format!("S:Restart{}", format!("{e:?}").chars().take_while(|ch| ch.is_alphanumeric()).collect::<String>())); break; }
+            out.push("restart".to_string());
+        }
         h.advance_time(Duration::from_millis(7));
         let r = std::panic::catch_unwind(std::panic::AssertUnwindSafe(|| h.cycle()));
         match r {
